@@ -243,6 +243,8 @@ def random_cases(rng, count):
             value = [vf, items] if vf != "flaky" else ["flaky", items, rng.randint(0, m), m]
         cs.append({"op": "set", "vals": vals, "name": rng.choice([None, "x"]), "prime": rng.random() < 0.5,
                    "shared": rng.random() < 0.05, "key": key, "value": value})
+        if rng.random() < 0.2 and not any(t[0] == "N" for t in vals):
+            cs[-1]["decl_null"] = True
     return cs
 
 
@@ -464,6 +466,11 @@ def observe(case):
             if vals and all(isinstance(x, Vector) for x in vals):
                 return {"skip": "vector of vectors"}
             v = Vector(vals, name=case["name"])
+            if case.get("decl_null") and v.schema() is not None and not v.schema().nullable:
+                # a vector whose schema says nullable although it holds no None right now (what is left after
+                # v[i] = None; v[i] = 5): the flag must survive every later write, promotions included
+                from serif.typing import DataType
+                v = Vector(vals, dtype=DataType(v.schema().kind, nullable=True), name=case["name"])
             keep = Vector(vals) if case["shared"] else None        # a second live owner of the same tuple
             fp0 = v.fingerprint() if case["prime"] else None
             key, value = _mk_key(case["key"]), _mk_value(case["value"])
